@@ -74,6 +74,23 @@ pub fn seeded_input(rng: &mut Rng, fmt: Fmt, tag: u64) -> (Vec<u8>, &'static str
         tag,
         ..GenOpts::default()
     };
+    if !cfg!(miri) {
+        if rng.chance(1, 400) {
+            return (gen::pow2_aligned(rng, fmt, tag), "pow2-aligned");
+        }
+        match rng.below(60) {
+            0 => return (gen::big64k(rng, fmt, tag), "big-64k"),
+            1 | 2 | 3 => {
+                let (mut b, fam) = gen::shaped(rng, fmt, tag);
+                if rng.chance(1, 3) {
+                    // defects inside unusually shaped records
+                    gen::mutate(rng, &mut b);
+                }
+                return (b, fam);
+            }
+            _ => {}
+        }
+    }
     match rng.below(8) {
         0 | 1 | 2 => (gen::wf(rng, fmt, &opts).2, "wf"),
         3 | 4 => {
@@ -213,7 +230,7 @@ fn c01_one(ctx: &Ctx, idx: u64, rep: &mut Report, input: Rc<Vec<u8>>, cfg: &Conf
         let replay = || {
             let mut j = ctx.replay_json(idx);
             j["input"] = json!(show(&input));
-            j["input_hex"] = json!(gen::hex(&input));
+            j["input_hex"] = json!(gen::hex_limited(&input));
             j["config"] = json!(cfg.describe());
             j["via"] = json!(format!("{:?}", via));
             j
@@ -286,6 +303,20 @@ pub fn c01(ctx: &Ctx, rep: &mut Report) {
                 if ctx.miri {
                     cfg.cap = cfg.cap.min(3 + (idx as usize + k) % 14);
                 }
+                if family == "pow2-aligned" {
+                    // default buffer and doubling policy (also from tiny capacities that double up to a power of two)
+                    cfg.cap = *rng.pick(&[65536usize, 65536, 4096, 4, 8]);
+                    cfg.policy = PolSpec::Std;
+                    cfg.chunking = rng.pick(&[Chunking::Whole, Chunking::Fixed(65536), Chunking::Fixed(100_000)]).clone();
+                }
+                if family == "big-64k" {
+                    // the default buffer size and its neighbours
+                    cfg.cap = *rng.pick(&[65536usize, 65536, 65535, 65537, 32768]);
+                    if matches!(cfg.chunking, Chunking::OneByte | Chunking::Fixed(_)) {
+                        cfg.chunking = Chunking::Fixed(8192);
+                    }
+                }
+                gen::tame(&mut cfg, input.len());
                 let vias: &[Via] = if ctx.miri && k == 1 { &[Via::Records] } else if ctx.miri { &[Via::Next] } else { &[Via::Next, Via::Records, Via::IntoRecords] };
                 c01_one(ctx, idx, rep, input.clone(), &cfg, vias, family);
             }
@@ -475,7 +506,7 @@ fn c02_one(ctx: &Ctx, idx: u64, rep: &mut Report, input: Rc<Vec<u8>>, cfg: &Conf
         let replay = || {
             let mut j = ctx.replay_json(idx);
             j["input"] = json!(show(&input));
-            j["input_hex"] = json!(gen::hex(&input));
+            j["input_hex"] = json!(gen::hex_limited(&input));
             j["config"] = json!(cfg.describe());
             j["via"] = json!(format!("{:?}", via));
             j
@@ -557,6 +588,20 @@ pub fn c02(ctx: &Ctx, rep: &mut Report) {
                 if ctx.miri {
                     cfg.cap = cfg.cap.min(3 + (idx as usize + k) % 14);
                 }
+                if family == "pow2-aligned" {
+                    // default buffer and doubling policy (also from tiny capacities that double up to a power of two)
+                    cfg.cap = *rng.pick(&[65536usize, 65536, 4096, 4, 8]);
+                    cfg.policy = PolSpec::Std;
+                    cfg.chunking = rng.pick(&[Chunking::Whole, Chunking::Fixed(65536), Chunking::Fixed(100_000)]).clone();
+                }
+                if family == "big-64k" {
+                    // the default buffer size and its neighbours
+                    cfg.cap = *rng.pick(&[65536usize, 65536, 65535, 65537, 32768]);
+                    if matches!(cfg.chunking, Chunking::OneByte | Chunking::Fixed(_)) {
+                        cfg.chunking = Chunking::Fixed(8192);
+                    }
+                }
+                gen::tame(&mut cfg, input.len());
                 let vias: &[Via] = if ctx.miri && k == 1 { &[Via::Records] } else if ctx.miri { &[Via::Next] } else { &[Via::Next, Via::Records, Via::IntoRecords] };
                 c02_one(ctx, idx, rep, input.clone(), &cfg, vias, family);
             }
@@ -691,7 +736,13 @@ pub fn c03(ctx: &Ctx, rep: &mut Report) {
         let extents: Vec<usize> = r.recs.iter().map(|x| x.extent()).collect();
         let input = Rc::new(bytes);
         let ncfg = if ctx.miri { 3 } else { rng.range(7, 23) };
-        let cfgs = c03_configs(&mut rng, input.len(), &extents, ncfg);
+        let mut cfgs = c03_configs(&mut rng, input.len(), &extents, ncfg);
+        for c in cfgs.iter_mut() {
+            gen::tame(c, input.len());
+        }
+        if input.len() > 200_000 {
+            cfgs.truncate(5);
+        }
         let max_calls = match fmt {
             Fmt::Fasta => r.recs.len() + 6,
             Fmt::Fastq => max_fastq_calls(&input),
@@ -701,7 +752,7 @@ pub fn c03(ctx: &Ctx, rep: &mut Report) {
         let replay = |cfg: &Config, mode: &str| {
             let mut j = ctx.replay_json(idx);
             j["input"] = json!(show(&input));
-            j["input_hex"] = json!(gen::hex(&input));
+            j["input_hex"] = json!(gen::hex_limited(&input));
             j["first_config"] = json!(cfgs[0].describe());
             j["config"] = json!(cfg.describe());
             j["mode"] = json!(mode);
@@ -1036,7 +1087,8 @@ pub fn c17(ctx: &Ctx, rep: &mut Report) {
         let input = Rc::new(bytes);
         let ncfg = if ctx.miri { 2 } else { 4 };
         for _ in 0..ncfg {
-            let cfg = gen::gen_config(&mut rng, input.len(), &extents);
+            let mut cfg = gen::gen_config(&mut rng, input.len(), &extents);
+            gen::tame(&mut cfg, input.len());
             rep.evaluations += 1;
             let max_calls = match fmt {
                 Fmt::Fasta => r.recs.len() + 6,
@@ -1046,7 +1098,7 @@ pub fn c17(ctx: &Ctx, rep: &mut Report) {
             let replay = || {
                 let mut j = ctx.replay_json(idx);
                 j["input"] = json!(show(&input));
-                j["input_hex"] = json!(gen::hex(&input));
+                j["input_hex"] = json!(gen::hex_limited(&input));
                 j["config"] = json!(cfg.describe());
                 j["defect"] = json!(defect);
                 j
@@ -1100,6 +1152,54 @@ pub fn c17(ctx: &Ctx, rep: &mut Report) {
                 }
                 Ok(None) => {
                     rep.count("defect_not_an_error");
+                }
+            }
+            // the same error through record-set reads (plain and exact-count): a set read may
+            // report the error ahead of the records before it, but its fields must be the same
+            if !r.ambiguous() && r.has_err() {
+                for n in [None, Some(1usize), Some(2), Some(3), Some(5)] {
+                    rep.evaluations += 1;
+                    let mut rig = make_rig(fmt, input.clone(), &cfg, vec![]);
+                    let mut set = AnySet::new(fmt);
+                    let mut found: Option<ErrFull> = None;
+                    let res = guarded(|| {
+                        for _ in 0..max_calls {
+                            rig.begin_op();
+                            match rig.r().read_set(&mut set, n) {
+                                SetObs::Ok => {}
+                                SetObs::Err(e) => {
+                                    found = Some(e);
+                                    break;
+                                }
+                                SetObs::End => break,
+                            }
+                        }
+                    });
+                    let mut j = replay();
+                    j["set_read_n"] = json!(n);
+                    if let Err(c) = res {
+                        caught_violation(rep, &c, "set reading", j);
+                        continue;
+                    }
+                    match found {
+                        Some(e) => {
+                            rep.map("set_read_errors", &format!("{}:{}", e.obs.kind_name(), n.map_or("plain".to_string(), |x| format!("exact{}", x))));
+                            if !r.err.iter().any(|x| err_matches(&e.obs, x, true)) {
+                                rep.violation(
+                                    &format!("{}-error-fields-set-read", fmt.name()),
+                                    format!("set read (n = {:?}) reports {:?}, the true error is one of {:?}", n, e.obs, r.err),
+                                    j,
+                                );
+                            } else if let Err(m) = check_message(&e) {
+                                rep.violation("message-text", m, j);
+                            }
+                        }
+                        None => {
+                            if !r.err_or_end {
+                                rep.count("set_read_lost_error_other_property");
+                            }
+                        }
+                    }
                 }
             }
         }
